@@ -157,6 +157,60 @@ func ruleR15b(c *Ctx) {
 			case strings.Contains(src, "[:") || strings.Contains(src, ":]") || strings.Contains(src, "txt["):
 				class = "slice-of-normalised"
 			}
+			if class == "other" {
+				// a variable that only ever holds the text of an already normalised node, or a tail of itself
+				base := ast.Unparen(text)
+				if se, ok := base.(*ast.SliceExpr); ok {
+					base = ast.Unparen(se.X)
+				}
+				if id, ok := base.(*ast.Ident); ok && info.Uses[id] != nil {
+					obj := info.Uses[id]
+					all, some := true, false
+					okRHS := func(r ast.Expr) bool {
+						r = ast.Unparen(r)
+						if se, ok := r.(*ast.SliceExpr); ok {
+							if rid, ok := ast.Unparen(se.X).(*ast.Ident); ok && info.Uses[rid] == obj {
+								return true
+							}
+							return false
+						}
+						if se, ok := r.(*ast.SelectorExpr); ok && se.Sel.Name == "Text" {
+							if tv, ok := info.Types[se.X]; ok {
+								if _, tn, ok := relPkgOfType(tv.Type); ok && tn == "RawTextNode" {
+									return true
+								}
+							}
+						}
+						return false
+					}
+					ast.Inspect(fd.Body, func(y ast.Node) bool {
+						switch st := y.(type) {
+						case *ast.ValueSpec:
+							for i, nm := range st.Names {
+								if info.Defs[nm] == obj && i < len(st.Values) {
+									some = true
+									if !okRHS(st.Values[i]) {
+										all = false
+									}
+								}
+							}
+						case *ast.AssignStmt:
+							for i, l := range st.Lhs {
+								if li, ok := l.(*ast.Ident); ok && (info.Defs[li] == obj || info.Uses[li] == obj) && i < len(st.Rhs) {
+									some = true
+									if !okRHS(st.Rhs[i]) {
+										all = false
+									}
+								}
+							}
+						}
+						return true
+					})
+					if all && some {
+						class = "slice-of-normalised"
+					}
+				}
+			}
 			site := "text"
 			if len(clauseStack) > 0 {
 				for _, e := range clauseStack[len(clauseStack)-1].List {
